@@ -5,6 +5,7 @@ import (
 	"go/ast"
 	"go/token"
 	"go/types"
+	"sort"
 	"strings"
 
 	"golang.org/x/tools/go/ssa"
@@ -555,13 +556,10 @@ func ruleSplit(c *Ctx) {
 			c.check(withoutCR == 0, "normalise:"+name+":dropCR", fn.Pos(), "every record return strips a trailing CR", name+": some record returns strip a trailing carriage return and others (e.g. the final unterminated record) do not: the same line yields a different record depending on whether it is the last one")
 		}
 	}
-	// ---- CLASS: character-class loops over data use one class per splitter (AST level)
-	for _, fd := range c.allFuncDecls("interp") {
-		if fd.Body == nil || fd.Name.Name != "scan" || fd.Recv == nil {
-			continue
-		}
-		classes := map[string]int{}
-		var first token.Pos
+	// ---- CLASS: character-class loops over data use one class per splitter (AST level); the loops may sit in the
+	// splitter itself or in helpers it calls, and the slice may have any name
+	sinfo := c.pkg("interp").TypesInfo
+	classLoops := func(fd *ast.FuncDecl, classes map[string]int, first *token.Pos) {
 		ast.Inspect(fd.Body, func(n ast.Node) bool {
 			fs, ok := n.(*ast.ForStmt)
 			if !ok || fs.Cond == nil || fs.Init != nil {
@@ -571,8 +569,17 @@ func ruleSplit(c *Ctx) {
 			if !ok || be.Op != token.LAND {
 				return true
 			}
-			// i < len(data) && (class over data[i])
-			if !strings.Contains(types.ExprString(be.X), "len(data)") || !strings.Contains(types.ExprString(be.Y), "data[") {
+			// i < len(X) && (class over X[i])
+			lx, ok := be.X.(*ast.BinaryExpr)
+			if !ok || lx.Op != token.LSS {
+				return true
+			}
+			lc, ok := lx.Y.(*ast.CallExpr)
+			if !ok || !isIdent(lc.Fun, "len") || len(lc.Args) != 1 {
+				return true
+			}
+			name := types.ExprString(lc.Args[0])
+			if !strings.Contains(types.ExprString(be.Y), name+"[") {
 				return true
 			}
 			if len(fs.Body.List) != 1 {
@@ -581,21 +588,54 @@ func ruleSplit(c *Ctx) {
 			if _, ok := fs.Body.List[0].(*ast.IncDecStmt); !ok {
 				return true
 			}
-			classes[types.ExprString(be.Y)]++
-			if first == token.NoPos {
-				first = fs.Pos()
+			cls := strings.ReplaceAll(types.ExprString(be.Y), name+"[", "D[")
+			cls = strings.ReplaceAll(cls, "["+types.ExprString(lx.X)+"]", "[i]")
+			classes[cls]++
+			if *first == token.NoPos {
+				*first = fs.Pos()
 			}
 			return true
 		})
-		if len(classes) == 0 {
+	}
+	for _, fd := range c.allFuncDecls("interp") {
+		if fd.Body == nil || fd.Recv == nil {
 			continue
 		}
+		if sf := c.ssaFunc("interp", declName(fd)); sf == nil || !isSplitFunc(sf) {
+			continue
+		}
+		classes := map[string]int{}
+		var first token.Pos
+		classLoops(fd, classes, &first)
+		seenH := map[string]bool{}
+		ast.Inspect(fd.Body, func(n ast.Node) bool {
+			if call, ok := n.(*ast.CallExpr); ok {
+				if f := calleeOf(sinfo, call); f != nil && f.Pkg() == c.pkg("interp").Types && !seenH[f.Name()] {
+					seenH[f.Name()] = true
+					name := f.Name()
+					if sig := f.Type().(*types.Signature); sig.Recv() != nil {
+						if nm := named(deref(sig.Recv().Type())); nm != nil {
+							name = nm.Obj().Name() + "." + name
+						}
+					}
+					if hd := c.funcDecl("interp", name); hd != nil && hd.Body != nil {
+						classLoops(hd, classes, &first)
+					}
+				}
+			}
+			return true
+		})
 		nm := declName(fd)
+		if len(classes) == 0 {
+			c.trivial("class:"+nm, fd.Pos(), "no character-class skipping loop over the data in %s or its helpers", nm)
+			continue
+		}
 		var ks []string
 		for k := range classes {
 			ks = append(ks, k)
 		}
-		c.check(len(classes) == 1, "class:"+nm, first, fmt.Sprintf("all %d character-class skipping loops of %s use the class %s", classes[ks[0]], nm, ks[0]), fmt.Sprintf("%s skips over different character classes in different places %v: bytes skipped when they lead a buffer are kept when they follow a terminator (or vice versa), so records depend on where reads end", nm, ks))
+		sort.Strings(ks)
+		c.check(len(classes) == 1, "class:"+nm, posOr(first, fd.Pos()), fmt.Sprintf("all %d character-class skipping loops of %s use the class %s", classes[ks[0]], nm, ks[0]), fmt.Sprintf("%s skips over different character classes in different places %v: bytes skipped when they lead a buffer are kept when they follow a terminator (or vice versa), so records depend on where reads end", nm, ks))
 	}
 }
 
